@@ -335,6 +335,11 @@ func runOmni(c *OmniCase) (bool, []string, error) {
 		return false, nil, fmt.Errorf("harness: %v", err)
 	}
 	defer func() {
+		stubs.mu.Lock()
+		stubs.down = false
+		stubs.mu.Unlock()
+	}()
+	defer func() {
 		if run != nil {
 			_ = stop(run)
 		}
@@ -473,15 +478,22 @@ func runOmni(c *OmniCase) (bool, []string, error) {
 			witnessed[st.Log] = want
 			classes = append(classes, "followed-after-heal:"+stubs.logs[st.Log].kind)
 		case "restart":
-			if c.Storage != "sqlfile" {
-				continue
-			}
+			// on SQLite the file carries the state; with the in-memory store the SAME store
+			// object is handed to the next Main (Init is documented to be idempotent)
 			if err := stop(run); err != nil {
 				run = nil
 				return true, classes, fmt.Errorf("%s: %v", what, err)
 			}
+			// the logs are unreachable while the restarted service is looked at: what it serves
+			// then is what it kept, not what its feeders have just fetched again
+			stubs.mu.Lock()
+			stubs.down = true
+			stubs.mu.Unlock()
 			run, err = start()
 			if err != nil {
+				stubs.mu.Lock()
+				stubs.down = false
+				stubs.mu.Unlock()
 				return true, classes, fmt.Errorf("harness: restart: %v", err)
 			}
 			restarts++
@@ -504,6 +516,9 @@ func runOmni(c *OmniCase) (bool, []string, error) {
 					return true, classes, fmt.Errorf("%s: after restart log %d: %v", what, li, verr)
 				}
 			}
+			stubs.mu.Lock()
+			stubs.down = false
+			stubs.mu.Unlock()
 			classes = append(classes, "restart")
 		}
 	}
@@ -524,7 +539,7 @@ func runOmni(c *OmniCase) (bool, []string, error) {
 	return (growths >= 2 && crossed) || restarts > 0 || forks > 0 || heals > 0 || outages > 0, classes, nil
 }
 
-const ruleC14 = "omniwitness.Main started from a generated YAML configuration (one sumdb-type log, 1-3 tiles-type logs served by in-process stub servers over loopback; in half of the cases also a bastion-only entry with Feeder none somewhere in the list), polling every 250ms, mem or file-backed SQLite, real listener; growth schedules over sizes crossing tile boundaries, restarts on the same database, switches to a forked history and back to the witnessed one at the fork's size, growth published while the log's tiles are unreadable for three polls; after each growth the served checkpoint must become the published one, fully cosigned, within 60s; after a fork has been polled 4 more times the served checkpoint is still the witnessed one; non-trivial = schedule with >=2 growth steps one of which crosses a tile boundary, or a restart, or a fork, or a return from a fork, or a tile outage; distinct by case hash"
+const ruleC14 = "omniwitness.Main started from a generated YAML configuration (one sumdb-type log, 1-3 tiles-type logs served by in-process stub servers over loopback; in half of the cases also a bastion-only entry with Feeder none somewhere in the list), polling every 250ms, mem or file-backed SQLite, real listener; growth schedules over sizes crossing tile boundaries, restarts on the same database (or the same in-memory store object: Init is documented as idempotent), switches to a forked history and back to the witnessed one at the fork's size, growth published while the log's tiles are unreadable for three polls; after each growth the served checkpoint must become the published one, fully cosigned, within 60s; after a fork has been polled 4 more times the served checkpoint is still the witnessed one; non-trivial = schedule with >=2 growth steps one of which crosses a tile boundary, or a restart, or a fork, or a return from a fork, or a tile outage; distinct by case hash"
 
 var omniSizes = []uint64{1, 2, 3, 4, 5, 17, 255, 256, 257, 300, 511, 512, 513, 1000, 65535, 65536, 65537, 70000, 255999, 256001, 256100, 256255, 256257}
 
@@ -600,6 +615,7 @@ func TestC14Fixed(t *testing.T) {
 		{Storage: "mem", NTiles: 1, Steps: []OmniStep{{Kind: "grow", Log: 1, Size: 300}, {Kind: "grow", Log: 0, Size: 300}, {Kind: "fork", Log: 1, Size: 400}, {Kind: "fork", Log: 0, Size: 400}, {Kind: "heal", Log: 1}, {Kind: "heal", Log: 0}, {Kind: "grow", Log: 1, Size: 450}, {Kind: "grow", Log: 0, Size: 450}}},
 		{Storage: "mem", NTiles: 1, Steps: []OmniStep{{Kind: "grow", Log: 0, Size: 10}, {Kind: "grow", Log: 1, Size: 10}, {Kind: "grow-outage", Log: 0, Size: 20}, {Kind: "grow-outage", Log: 1, Size: 20}, {Kind: "grow", Log: 0, Size: 21}}},
 		// a configuration far larger than the shipped one (41 polled logs): nothing may depend on the number of logs
+		{Storage: "mem", NTiles: 1, Steps: []OmniStep{{Kind: "grow", Log: 0, Size: 5}, {Kind: "grow", Log: 1, Size: 5}, {Kind: "restart"}, {Kind: "grow", Log: 1, Size: 9}, {Kind: "restart"}, {Kind: "grow", Log: 0, Size: 9}}},
 		{Storage: "mem", NTiles: 40, Steps: []OmniStep{{Kind: "grow", Log: 0, Size: 3}, {Kind: "grow", Log: 1, Size: 4}, {Kind: "grow", Log: 17, Size: 5}, {Kind: "grow", Log: 33, Size: 6}, {Kind: "grow", Log: 40, Size: 7}, {Kind: "grow", Log: 40, Size: 300}, {Kind: "grow", Log: 1, Size: 9}}},
 		{Storage: "mem", NTiles: 2, NoneAt: 2, Steps: []OmniStep{{Kind: "grow", Log: 0, Size: 3}, {Kind: "grow", Log: 1, Size: 4}, {Kind: "grow", Log: 2, Size: 5}, {Kind: "grow", Log: 1, Size: 9}, {Kind: "grow", Log: 2, Size: 300}}},
 		{Storage: "mem", NTiles: 1, Steps: []OmniStep{{Kind: "grow", Log: 0, Size: 255900}, {Kind: "grow", Log: 1, Size: 255900}, {Kind: "grow", Log: 0, Size: 256100}, {Kind: "grow", Log: 1, Size: 256100}}},
